@@ -8,8 +8,10 @@ use std::collections::BTreeMap;
 use std::fmt::Write as _;
 use std::io::Write as _;
 
+use rs_matter::error::ErrorCode;
 use rs_matter::transport::network::Address;
-use rs_matter::transport::session::Session;
+use rs_matter::transport::packet::PacketHdr;
+use rs_matter::transport::session::{Session, SessionMode};
 use rs_matter::transport::verif_hooks::{GroupCtrStore, RxCtrState};
 use rsm_harness::{Digest, Rng};
 
@@ -42,6 +44,37 @@ fn run_line(line: &str, out: &mut String) {
                 flags.push(if s.post_recv(c, enc, roll) { '1' } else { '0' });
             }
             writeln!(out, "H {} {} {}", id, flags, rx_str(&s)).unwrap();
+        }
+        "T" => {
+            // transport level: Session::post_recv answers Duplicate exactly when the window rejects
+            let (id, mode, cs) = (f[1], f[2], f[3]);
+            let mut s = Session::new(1, 0, false, Address::new(), None, 300, 300, 4000);
+            match mode {
+                "case" => s.verif_set_session_mode(SessionMode::Case {
+                    fab_idx: core::num::NonZeroU8::new(1).unwrap(),
+                    cat_ids: Default::default(),
+                }),
+                "pase" => s.verif_set_session_mode(SessionMode::Pase { fab_idx: 0 }),
+                _ => {}
+            }
+            let mut flags = String::new();
+            for (p, c) in cs.split(',').filter(|x| !x.is_empty()).enumerate() {
+                let mut hdr = PacketHdr::new();
+                hdr.plain.ctr = c.parse::<u32>().unwrap();
+                hdr.proto.exch_id = 100 + p as u16;
+                if p % 3 == 0 {
+                    // an initiator message that opens a new exchange (IM ReadRequest)
+                    hdr.proto.set_initiator();
+                    hdr.proto.proto_id = 1;
+                    hdr.proto.proto_opcode = 2;
+                }
+                let dup = match s.verif_post_recv(&hdr) {
+                    Err(e) => e.code() == ErrorCode::Duplicate,
+                    Ok(_) => false,
+                };
+                flags.push(if dup { '0' } else { '1' });
+            }
+            writeln!(out, "T {} {} {}", id, flags, rx_str(s.verif_rx_ctr_state())).unwrap();
         }
         "B" => {
             // group sender with true (unwrapped) counters: first, then history
@@ -249,6 +282,13 @@ fn generate(tier: &str, seed: u64) -> (Vec<String>, BTreeMap<&'static str, u64>)
         let len = rng.range(1, 60) as usize;
         let h = gen_history(&mut rng, len, &mut hist, 0, 0xffff_ffff);
         cases.push(format!("H {} 1 0 U {}", next_id(), join(&h)));
+    }
+    // --- transport level (Session::post_recv), all session modes
+    for i in 0..n_hist / 3 {
+        let len = rng.range(1, 40) as usize;
+        let h = gen_history(&mut rng, len, &mut hist, 0, 0xffff_ffff);
+        let mode = ["case", "pase", "plain"][i % 3];
+        cases.push(format!("T {} {} {}", next_id(), mode, join(&h)));
     }
     // --- unsecured unicast
     for _ in 0..n_hist / 3 {
